@@ -1,5 +1,6 @@
 """C12 - persisted objects survive serialization (structural part)."""
 from engine import *
+import re
 import tlv
 
 EXPLANATION = ('Writer/reader agreement of every hand-written TLV table (un-expanded macro tables extracted with syn): every type a '
@@ -252,3 +253,77 @@ def r12h(F):
 	return out
 
 RULES.append(('12.h', 'hand-written one-byte enum codecs: writer and reader tables agree; lossy variants come back as the reviewed canonical variant', r12h))
+
+
+def r12i(F):
+	"""hand-written TLV tables restore each value into the field it was written from: if type n is written from field X but the reader
+	stores type n into another field Y, while X is restored from a different type and nothing writes Y, then Y does not survive a reload
+	(the copy-paste-of-the-neighbouring-line defect). Writer/reader tables come from the un-expanded macros, the variable -> field map from MIR."""
+	import tlv, collections
+	out = []
+	tables = tlv.load(F)
+	pairs, left = tlv.build_pairs(tables)
+	byfile = collections.defaultdict(list)
+	for n, rec in F.fns.items():
+		if '{closure' not in n:
+			byfile[rec['file']].append((rec['lo'], rec['hi'], n))
+	def fn_at(rel, line):
+		best = None
+		for lo, hi, n in byfile.get(rel, []):
+			if lo <= line <= hi and (best is None or lo >= best[0]):
+				best = (lo, hi, n)
+		return best[2] if best else None
+	PURE = re.compile(r'^[&*\s]*(?:\(\s*)?[&*\s]*([A-Za-z_][A-Za-z0-9_]*)((?:\s*\.\s*[A-Za-z_0-9]+)+)\s*\)?$')
+	IDENT = re.compile(r'[A-Za-z_][A-Za-z0-9_]*')
+	def wfield(src):
+		m = PURE.match(src.strip())
+		if not m:
+			return None
+		f = re.sub(r'\s+', '', m.group(2)).split('.')[-1]
+		return None if f.isdigit() else f
+	n_cells = 0
+	for p in pairs:
+		if len(p.writers) != 1 or len(p.readers) != 1:
+			continue
+		w, r = p.writers[0], p.readers[0]
+		rfn = fn_at(r['rel'], r['line'])
+		if not rfn:
+			continue
+		try:
+			fams = [F.func(x) for x in F.family(rfn)]
+		except AnchorMissing:
+			continue
+		feeds = collections.defaultdict(set)
+		for fu in fams:
+			ex = Expr(fu)
+			for bi, si, st in fu.stmts():
+				rv = st[2]
+				if rv[0] == 'agg' and rv[1] == 'adt' and len(rv) > 5 and rv[5] and not norm(rv[2]).startswith('core::'):
+					for g, op in zip(rv[5], rv[4]):
+						if not g.isdigit():
+							for nm in expr_leaves(ex.of_operand(op))['locals']:
+								feeds[nm].add(g)
+		wt = {n: f for n, f, k in tlv.entry_types(w)}
+		rt = {n: [x for x in IDENT.findall(f) if x not in ('ref', 'mut')] for n, f, k in tlv.entry_types(r)}
+		wfields = {wfield(src) for src in wt.values()} - {None}
+		for n in wt:
+			fw = wfield(wt[n])
+			if n not in rt or fw is None:
+				continue
+			G = set()
+			for v in rt[n]:
+				G |= feeds.get(v, set())
+			if not G:
+				continue
+			n_cells += 1
+			elsewhere = [m2 for m2 in rt if m2 != n and any(fw in feeds.get(v, set()) for v in rt[m2])]
+			if fw not in G and elsewhere and not (G & wfields):
+				out.append(Result('12.i', False, 'wrong-source:%s:%s' % (p.name, n), '%s writes field `%s` under TLV type %s, but %s restores type %s into %s; `%s` itself is restored from type %s and nothing writes %s: %s is replaced by a copy of `%s` on reload' % (
+					tlv.desc(w), fw, n, tlv.desc(r), n, sorted(G), fw, elsewhere, sorted(G), sorted(G), fw), 2, where='%s:%d' % (w['rel'], w['line'])))
+	if n_cells < 150:
+		out.append(Result('12.i', False, 'floor:restored-field-cells', 'only %d (TLV type, written field, restored field) cells could be related (expected >= 150)' % n_cells, n_cells))
+	if not out:
+		out.append(Result('12.i', True, 'ok:written-field-is-restored-field', '%d TLV cells of hand-written tables: the field restored from a type is the field that was written under it' % n_cells, n_cells))
+	return out
+
+RULES.append(('12.i', 'hand-written TLV tables: each type is restored into the field it was written from (no value duplicated over a sibling field)', r12i))
